@@ -27,6 +27,7 @@ namespace emu {
   static std::vector<Tuple> visited;
   static std::mutex mu;
   static bool huge = false;          // a launch far beyond anything the sequential loop does
+  static long long lastInner[3] = {0, 0, 0};   // work-group size of the last launch that was not a noop
   static const unsigned long long CAP = 300000ULL;
 
   template <class... A>
@@ -57,6 +58,7 @@ namespace emu {
         total *= d[k];
         if (total > CAP) { huge = true; return; }
       }
+      lastInner[0] = (long long) innerDims.x; lastInner[1] = (long long) innerDims.y; lastInner[2] = (long long) innerDims.z;
       body(outerDims, innerDims);
     }
   };
